@@ -72,6 +72,7 @@ func scenarios() []*sess.Scenario {
 
 func main() {
 	run := vr.New("C10", "model_checking")
+	defer run.Recover()
 	run.Rule("executions = complete schedules of callers, receive loop and acknowledgement senders x server choices (answer order, containers of <=3 members in any order, unsolicited content-related and service messages), depth-first with delay bound D and server-deviation bound E; oracle = the reference server's own acceptance rules applied to every frame in arrival order + ack completeness at quiescence; non-trivial = at least 2 encrypted frames reached the server")
 	run.Assume("virtual clock: every reading is 1 microsecond after the previous one, except in scenario S4 where it does not advance at all",
 		"cooperative scheduler; every Conn.Write is a scheduling point so a too-short critical section shows up as interleaved frames or an id/seq inversion")
